@@ -77,6 +77,17 @@ GreedyResult(P, s) ==
 (* what a call with maxmatch = P.k may return *)
 Admissible(P, s) == IF P.k = 0 THEN Unlimited(P, s) ELSE GreedyResult(P, s)
 
+(* The numeric FORM in which the same values are handed over is not part of a problem:   *)
+(* coordinate lists as float64 or (integral values) as any of the integer dtypes, match  *)
+(* length / chunk size / maxmatch as Python numbers, numpy integer scalars or 0-d arrays.*)
+(* A call is a problem plus forms; what it may return depends on the problem only.       *)
+CoordForms == {"float64", "int64", "int32", "int16", "uint16", "uint8"}
+ScalarForms == {"float", "pyint", "int64", "int32", "int16", "uint16", "uint8",
+                "zerodim-int64", "zerodim-uint8", "zerodim-float"}
+CallOK(c) == /\ \A a \in DOMAIN c.coords : c.coords[a] \in CoordForms
+             /\ \A a \in DOMAIN c.scalars : c.scalars[a] \in ScalarForms
+AdmissibleCall(P, c, s) == CallOK(c) /\ Admissible(P, s)          \* FormIndependent by construction
+
 (* the machine: pairs are considered one at a time in an order compatible with rank;    *)
 (* a pair is accepted iff neither of its points has been used k times (k = 0: always).  *)
 VARIABLES prob, seen, skipped, got1, got2, out
